@@ -1,6 +1,7 @@
 #!/bin/bash
 # dev helper: run one harness filter with a time cap; prints the summary lines
 H="$1"; T="${2:-300}"; shift; shift
+ulimit -s unlimited
 python3 /verif/lib/shadow.py kani >/dev/null
 cd /var/tmp/verif-work/shadow-kani
 start=$(date +%s)
